@@ -8,6 +8,7 @@ mod c02;
 mod gen;
 mod c05;
 mod c07;
+mod c08;
 mod c15;
 mod c19;
 mod c16;
@@ -33,6 +34,8 @@ fn main() {
         ("c19", "replay") => c19::replay(&args[3]),
         ("c15", "search") => c15::search(),
         ("c15", "replay") => c15::replay(&args[3]),
+        ("c08", "search") => c08::search(),
+        ("c08", "replay") => c08::replay(&args[3]),
         ("c07", "search") => c07::search(),
         ("c07", "replay") => c07::replay(&args[3]),
         ("c05", "search") => c05::search(),
